@@ -386,4 +386,15 @@ theorem sum_contrib_pos (applies : Suite → Bool) (mode : Nat) (ss : List Suite
       · have := hs.2 h; omega
       · have := ih.2 h; omega
 
+/-- whatever loads has passed the parser's per-case checks (first stage of `load`) -/
+theorem load_ok_parse (applies : Suite → Bool) (mode : Nat) (ss : List Suite)
+    (h : load applies mode ss = .ok ()) : ∀ s ∈ ss, ∀ c ∈ s.cases, ParseOk s c := by
+  unfold load at h
+  cases hp : firstSome (fun s => firstSome (parseCase s) s.cases) ss with
+  | some e => rw [hp] at h; cases h
+  | none =>
+    intro s hs c hc
+    exact (parseCase_none_iff s c).1
+      ((firstSome_none_iff _ s.cases).1 ((firstSome_none_iff _ ss).1 hp s hs) c hc)
+
 end ConfModel.EchoLoad
